@@ -288,7 +288,7 @@ def run_prio(ctx: Ctx) -> RuleResult:
     if not ok:
         res.finding(gc, rule_calls[0] if rule_calls else gc.node, 'the alternatives of a rule share one RuleOptions object (%s) while priority=\'invert\' '
                     'negates rule.options.priority in place per Rule: a rule with two alternatives is negated twice and keeps its priority'
-                    % (bad_[:2] if rule_calls and len(rule_calls) == 1 else '?'), construct='prio:options-shared')
+                    % (bad_[:2] if rule_calls and len(rule_calls) == 1 else '?'), construct='prio:options-shared', props=['C05', 'C10'])
     # ... and that object is a copy of the options of the rule the alternative belongs to (its `?`, `!`, priority, template source),
     # whichever arm builds it: a bare RuleOptions(...) would drop them for alternatives with an unmatched [..]
     if rule_calls and len(rule_calls) == 1 and same_loop:
@@ -330,7 +330,7 @@ def run_prio(ctx: Ctx) -> RuleResult:
     res.ob('%s %s' % (gc.loc(), gc.qual), 'EBNF helper rules get fresh options without a priority', ok)
     if not ok:
         res.finding(gc, ro[0] if ro else gc.node, 'the helper rules of +/*/~ expansion inherit the user rule\'s options (and so its priority, '
-                    'once per repetition): the total priority is no longer the sum over the rules applied', construct='prio:helper-options')
+                    'once per repetition): the total priority is no longer the sum over the rules applied', construct='prio:helper-options', props=['C03', 'C05'])
     # aggregator vs ordering
     fsv = repo.cls('lark.parsers.earley_forest:ForestSumVisitor')
     so = fsv.methods['visit_symbol_node_out']
